@@ -153,22 +153,7 @@ func runC13(r *Run) {
 					[]string{`cmp(<result> == "")`, "cmp(_ == 0)"})
 			}
 		}
-		// count
-		okCount := false
-		det := "NumberOfOperations not assigned"
-		for _, b := range f.Blocks {
-			for _, ins := range b.Instrs {
-				if st, isSt := ins.(*ssa.Store); isSt {
-					if fa, isFA := st.Addr.(*ssa.FieldAddr); isFA && fieldName(fa) == "NumberOfOperations" {
-						t := ff.TB.Of(st.Val)
-						det = t.String()
-						okCount = core.MatchTerm("SortedOperations.Size(parseOperations(_, $1))", t, core.Bind{})
-					}
-				}
-			}
-		}
-		r.R.Check(okCount, P+".count.anchor", "E13: the anchor string's operation count is Size() of the included (sorted) operations", core.FuncName(f), r.where(f),
-			"if deferred or expired operations are counted, the reader rejects the batch (count mismatch)", det, "count is "+det)
+		r.checkAnchorCount(P, f)
 		// special case
 		okSpecial := false
 		det2 := "createCoreIndexFile not found"
@@ -1093,4 +1078,25 @@ func (r *Run) checkWriterProofPresence(P string) {
 		r.R.Check(good && nSkip >= 1, P+".presence.writer."+strings.TrimPrefix(sp.fn, "OperationHandler."), "E8 sibling (writer ↔ reader presence table): "+sp.what, core.FuncName(f), r.where(f),
 			"the reader rejects a proof reference without entries and entries without their proof reference: a writer that disagrees produces batches that do not read back", "file written iff entries exist", strings.Join(det, "; "))
 	}
+}
+
+// checkAnchorCount: the operation count written into the anchor string is the size of what was written to the files
+// (shared by C13 and C20: the reader drops a whole batch whose count differs).
+func (r *Run) checkAnchorCount(P string, f *ssa.Function) {
+	ff := r.E.Facts(f, core.Ctx{})
+	okCount := false
+	det := "NumberOfOperations not assigned"
+	for _, b := range f.Blocks {
+		for _, ins := range b.Instrs {
+			if st, isSt := ins.(*ssa.Store); isSt {
+				if fa, isFA := st.Addr.(*ssa.FieldAddr); isFA && fieldName(fa) == "NumberOfOperations" {
+					t := ff.TB.Of(st.Val)
+					det = t.String()
+					okCount = core.MatchTerm("SortedOperations.Size(parseOperations(_, $1))", t, core.Bind{})
+				}
+			}
+		}
+	}
+	r.R.Check(okCount, P+".count.anchor", "E13: the anchor string's operation count is Size() of the included (sorted) operations", core.FuncName(f), r.where(f),
+		"if deferred or expired operations are counted, the reader rejects the batch (count mismatch)", det, "count is "+det)
 }
